@@ -22,6 +22,8 @@ _robust_gp_fit_(gp, x_train, y_train, s2_train, hyp_gp, gp_train, optim_state, o
           if V[P[l]] <op> V[P[r]]: M[P[t]] = True  else: M[P[e]] = True
           M = np.logical_or(M, (V <op> np.percentile(V, q)).flatten())
           then only masked stores   T = T[~M] | T[M]   /   if <guard on T>: T = T[~M]      (T: VX VY VS2, tmp_gp.s2 -> VTmp; source = target)
+             and whole-array copies   tmp_gp.X = X  /  tmp_gp.y = Y   (-> (VGpX, g, MCopy VX), (VGpY, g, MCopy VY); position in the tuple = position
+             in the source: a copy placed BEFORE the masked store of its source stores the untrimmed array)
              guard ::= T is not None | not np.isscalar(T) | T.size > 0 | g and g
       any other statement: canonical text HPin, in its position; it must not mention a tracked name or `.s2`
   epilogue:  if <np.any/np.all of F or ~F>: <only logging> (skipped) | <anything else> (text in rs_epilogue)
@@ -212,7 +214,8 @@ def exc_classes(h, region):
     return out
 
 # ----------------------------------------------------------------------------- _robust_gp_fit_
-AVAR = {"VX", "VY", "VS2", "VTmp"}
+AVAR = {"VX", "VY", "VS2", "VTmp", "VGpX", "VGpY"}
+GP_ATTR = {"s2": "VTmp", "X": "VGpX", "y": "VGpY"}        # the training set stored ON the object whose fit is called
 
 class Robust:
     def __init__(self, fn):
@@ -239,8 +242,8 @@ class Robust:
         """avar of an expression: a tracked local or <recv>.s2"""
         if isinstance(n, ast.Name) and self.roles.get(n.id) in AVAR:
             return self.roles[n.id]
-        if isinstance(n, ast.Attribute) and n.attr == "s2" and isinstance(n.value, ast.Name) and n.value.id == self.recv:
-            return "VTmp"
+        if isinstance(n, ast.Attribute) and n.attr in GP_ATTR and isinstance(n.value, ast.Name) and n.value.id == self.recv:
+            return GP_ATTR[n.attr]
         return None
     def set_role(self, name, role, node):
         if name in self.roles and self.roles[name] != role:
@@ -514,6 +517,10 @@ class Robust:
                 bad("guarded masked store with else arm / several statements", x, R)
             g = self.guard(x.test)
             x = x.body[0]
+        # tmp_gp.X = X / tmp_gp.y = Y : the whole (already trimmed) local is stored on the GP object
+        if (isinstance(x, ast.Assign) and len(x.targets) == 1 and self.role(x.targets[0]) in ("VGpX", "VGpY") and is_name(x.value)
+                and self.role(x.value) in ("VX", "VY")):
+            return (self.role(x.targets[0]), g, f"(MCopy {self.role(x.value)})")
         if not (isinstance(x, ast.Assign) and len(x.targets) == 1 and self.role(x.targets[0]) and isinstance(x.value, ast.Subscript)):
             bad("statement after the mask construction is not a masked store T = T[~M]", x, R)
         tgt = self.role(x.targets[0])
@@ -808,6 +815,8 @@ class Robust:
                 bad(f"tracked local {nd.id} ({self.roles[nd.id]}) is used outside the statements translated for it", nd, "census")
             if isinstance(nd, ast.Attribute) and nd.attr == "s2" and id(nd) not in self.claimed:
                 bad("an attribute .s2 is used outside the drop block", nd, "census")
+            if isinstance(nd, ast.Attribute) and nd.attr in ("X", "y") and is_name(nd.value, self.recv) and id(nd) not in self.claimed:
+                bad(f"the training set stored on the fitted object (.{nd.attr}) is used outside the drop block", nd, "census")
             if isinstance(nd, ast.Call) and isinstance(nd.func, ast.Attribute) and nd.func.attr in ("fit", "__setattr__", "__dict__") \
                     and id(nd) not in self.claimed:
                 bad("a second call of a method fit", nd, "census")
